@@ -451,11 +451,18 @@ func c10Leaves(r *h.Result, rng *h.Rng, perPos int) error {
 				}
 				n++
 				head, tail := c10Heads(lv.Class, n)
-				m := c10Marker{head, c10Mid(prng, lv.Class), tail}
+				m := c10Marker{Head: head, Mid: c10Mid(prng, lv.Class), Tail: tail}
+				switch {
+				case k == 1:
+					m.Pre = c10Lead(prng, lv.Class, true)
+				case k >= 2 && prng.Chance(60):
+					m.Pre = c10Lead(prng, lv.Class, prng.Chance(25))
+				}
 				want := []string{m.Val()}
 				if lv.Expect != nil {
 					want = lv.Expect(m.Val())
 				}
+				want = c10ScopeStripped(lv, want)
 				if strings.HasPrefix(p.Lang, "prof:") {
 					// no JSON transport here: the selector text reaches the parser uncoerced
 					want = append(want, m.Val(), strings.ReplaceAll(m.Val(), "`", ""))
@@ -470,7 +477,10 @@ func c10Leaves(r *h.Result, rng *h.Rng, perPos int) error {
 	prng := rng.Fork()
 	for k := 0; k < perPos*3; k++ {
 		n++
-		m := c10Marker{fmt.Sprintf("ZQ%d", n), c10Mid(prng, clFull), "QZ"}
+		m := c10Marker{Head: fmt.Sprintf("ZQ%d", n), Mid: c10Mid(prng, clFull), Tail: "QZ"}
+		if k%3 == 1 {
+			m.Pre = c10Lead(prng, clFull, k%2 == 1)
+		}
 		check("direct/values-key", "logql-values", `{a="b"}`, m, false, m.Val(), []string{m.Val()})
 		check("direct/traceql-values-key", "traceql-values", `{.a="b"}`, m, false, m.Val(), []string{m.Val()})
 		check("direct/prof-label-values-name", "prof:prof/label-values", `{a="b"}`, m, false, m.Val(), []string{m.Val()})
